@@ -349,6 +349,29 @@ void run_struct(mon::Rng& rng)
     }
   }
 
+  // ---------------- 4b. allocation: malloc_in_sandbox<S>(n) must ask the backend for room for n sandbox images, and two
+  //                  consecutive allocations must not overlap as images (the model allocator packs them)
+  {
+    mon::ctx("%s/allocation", sn);
+    for (uint32_t n : { 1u, 2u, 5u }) {
+      sb.get_sandbox_impl()->brk = 32768;
+      vsbx_ev.last_malloc_size = 0;
+      tainted<S*, Sbx> a = nullptr, b = nullptr;
+      bool ab = mon::aborts([&] { a = n == 1 ? sb.template malloc_in_sandbox<S>() : sb.template malloc_in_sandbox<S>(n); });
+      uint64_t asked = vsbx_ev.last_malloc_size;
+      bool ab2 = mon::aborts([&] { b = sb.template malloc_in_sandbox<S>(); });
+      mon::evals();
+      uintptr_t ua = reinterpret_cast<uintptr_t>(a.UNSAFE_unverified()), ub = reinterpret_cast<uintptr_t>(b.UNSAFE_unverified());
+      if (ab || ab2 || !ua || !ub) report(sn, "allocation", "spurious-abort-or-null", mon::fmt("%s x %u", sn, n));
+      else if (asked < uint64_t(n) * sizeof(G) || ub - ua < uint64_t(n) * sizeof(G))
+        report(sn, "allocation", "smaller-than-the-sandbox-image",
+               mon::fmt("%s (%s): malloc_in_sandbox<%s>(%u) asked the backend for %llu bytes; %u image(s) of %zu bytes need %llu (application sizeof %zu); the next allocation starts %llu bytes further",
+                        sn, Cfg::name, sn, n, (unsigned long long)asked, n, sizeof(G), (unsigned long long)(uint64_t(n) * sizeof(G)), sizeof(S), (unsigned long long)(ub - ua)));
+      else n_load_ok++;
+    }
+    sb.get_sandbox_impl()->brk = 16;
+  }
+
   // ---------------- 5. every narrowing field in turn unrepresentable: abort expected
   {
     int nleaves = static_cast<int>(lay.leaves.size());
